@@ -274,10 +274,11 @@ def doCall (s : KState τ σ) (self : EvId) : Call τ σ → KState τ σ × Rep
     (s.trigger e (.fail x), .unit)
   | .spawn st =>
     -- Process.__init__: the process event, then Initialize(env, process) scheduled URGENT
-    let (s, p) := s.newLabelled { kind := .proc, cbs := some [], out := none }
-    let (s, i) := s.newEv { kind := .init p, cbs := some [.resume p], out := some (.ok .none) }
-    let s := s.schedule i URGENT Num.zero
-    (s.setProc p { st, target := some i }, .ev p)
+    let p := s.events.size
+    let s := (s.newLabelled { kind := .proc, cbs := some [], out := none }).1
+    let s := s.setProc p { st, target := some (p + 1) }      -- `self._target = Initialize(env, self)`
+    let s := (s.newEv { kind := .init p, cbs := some [.resume p], out := some (.ok .none) }).1
+    (s.schedule (p + 1) URGENT Num.zero, .ev p)
   | .interrupt p cause =>
     if (s.ev p).kind != .proc then (s, .val .none) else
     match mkInterrupt s p cause with
